@@ -20,8 +20,121 @@ WEIGHTS = {'add_pattern': 3, 'add_curve': 3, 'add_junction': 6, 'add_tank': 2, '
            'leak': 1, 'set_option': 0, 'restart': 2}
 
 
+FILES = [('Net1', 3), ('Net2', 2), ('Net3', 3), ('ky10', 1), ('Net6', 0.5)]
+
+
+class FileMirror(object):
+    """what the restart oracles need to know about a model that was read from a file and has no mirror: which curves are referenced"""
+
+    def __init__(self, wn):
+        d = wn.to_dict()
+        self.curves = [c_['name'] for c_ in d['curves']]
+        self.links = [l_['name'] for l_ in d['links']]
+        self.controls = {}
+        used = set()
+        for l_ in d['links']:
+            for k_ in ('pump_curve_name', 'efficiency'):
+                v_ = l_.get(k_)
+                if isinstance(v_, str):
+                    used.add(v_)
+                elif isinstance(v_, dict) and v_.get('name'):
+                    used.add(v_['name'])
+        for n_ in d['nodes']:
+            if n_.get('vol_curve_name'):
+                used.add(n_['vol_curve_name'])
+        self.used = used
+
+    def curve_referenced(self, c_):
+        return c_ in self.used
+
+
+def file_edit(wn, op):
+    """an edit through the public API on a model that came from a file: elements are addressed by position"""
+    k = op['kind']
+    i = int(op['i'])
+    if k == 'pipe' and wn.pipe_name_list:
+        setattr(wn.get_link(wn.pipe_name_list[i % len(wn.pipe_name_list)]), op['attr'], op['value'])
+    elif k == 'pipe_status' and wn.pipe_name_list:
+        l_ = wn.get_link(wn.pipe_name_list[i % len(wn.pipe_name_list)])
+        if not l_.check_valve:
+            l_.initial_status = op['value']
+    elif k == 'junction' and wn.junction_name_list:
+        j_ = wn.get_node(wn.junction_name_list[i % len(wn.junction_name_list)])
+        if op['attr'] == 'elevation':
+            j_.elevation = op['value']
+        elif op['attr'] == 'base_demand' and len(j_.demand_timeseries_list):
+            j_.demand_timeseries_list[0].base_value = op['value']
+        elif op['attr'] == 'add_demand':
+            j_.add_demand(op['value'], None, op.get('cat'))
+    elif k == 'tank' and wn.tank_name_list:
+        t_ = wn.get_node(wn.tank_name_list[i % len(wn.tank_name_list)])
+        if op['attr'] == 'init_level':
+            t_.init_level = t_.min_level + (t_.max_level - t_.min_level) * op['value']
+        elif op['attr'] == 'overflow':
+            t_.overflow = bool(op['value'])
+    elif k == 'pattern' and wn.pattern_name_list:
+        wn.get_pattern(wn.pattern_name_list[i % len(wn.pattern_name_list)]).multipliers = list(op['value'])
+    elif k == 'control' and wn.pipe_name_list:
+        import wntr.network.controls as ct
+        l_ = wn.get_link(wn.pipe_name_list[i % len(wn.pipe_name_list)])
+        if l_.check_valve:
+            return
+        act = ct.ControlAction(l_, 'status', 1 if op['value'] == 'OPEN' else 0)
+        name = 'fc%d' % op['n']
+        if name in wn.control_name_list:
+            return
+        if op['how'] == 'simple':
+            wn.add_control(name, ct.Control(ct.SimTimeCondition(wn, '=', float(op['t'])), act))
+        else:
+            wn.add_control(name, ct.Rule(ct.SimTimeCondition(wn, '>=', float(op['t'])), [act], priority=op.get('priority', 3)))
+    elif k == 'option':
+        store.real_step(wn, {'op': 'set_option', 'path': op['path'], 'value': op['value']})
+
+
+def gen_file_history(rng):
+    from ..storegen import OPTION_CHOICES
+    ops = []
+    for _ in range(rng.irange(2, 6)):
+        kd = rng.wpick([('edit', 3), ('restart', 4)])
+        if kd == 'restart':
+            how = rng.wpick([('inp', 5), ('dict', 2), ('json', 2), ('pickle', 1), ('deepcopy', 1)])
+            op = {'op': 'restart', 'how': how}
+            if how == 'inp':
+                op['units'] = rng.pick(['GPM', 'CFS', 'MGD', 'IMGD', 'AFD', 'LPS', 'LPM', 'MLD', 'CMH', 'CMD'])
+                op['version'] = rng.pick([2.0, 2.2, 2.2])
+            ops.append(op)
+            continue
+        k = rng.wpick([('pipe', 3), ('pipe_status', 1), ('junction', 3), ('tank', 2), ('pattern', 1), ('control', 2), ('option', 3)])
+        op = {'op': 'fedit', 'kind': k, 'i': rng.irange(0, 5000)}
+        if k == 'pipe':
+            op['attr'] = rng.pick(['roughness', 'diameter', 'length', 'minor_loss'])
+            op['value'] = {'roughness': rng.pick([87.0, 101.5, 140.0]), 'diameter': rng.pick([0.1524, 0.3, 0.4572]), 'length': round(rng.uni(10.0, 2000.0), 3),
+                           'minor_loss': rng.pick([0.0, 0.9, 12.5])}[op['attr']]
+        elif k == 'pipe_status':
+            op['value'] = rng.pick(['OPEN', 'CLOSED'])
+        elif k == 'junction':
+            op['attr'] = rng.pick(['elevation', 'base_demand', 'add_demand'])
+            op['value'] = round(rng.uni(1.0, 90.0), 3) if op['attr'] == 'elevation' else round(rng.uni(1e-4, 2e-2), 7)
+            op['cat'] = rng.pick([None, 'ind'])
+        elif k == 'tank':
+            op['attr'] = rng.pick(['init_level', 'overflow'])
+            op['value'] = round(rng.uni(0.1, 0.9), 3) if op['attr'] == 'init_level' else True
+        elif k == 'pattern':
+            op['value'] = [round(rng.uni(0.2, 1.9), 3) for _ in range(rng.irange(2, 8))]
+        elif k == 'control':
+            op.update(how=rng.pick(['simple', 'rule']), t=int(rng.irange(1, 40) * 1800), value=rng.pick(['OPEN', 'CLOSED']), n=rng.irange(1, 4), priority=rng.irange(1, 5))
+        elif k == 'option':
+            path, vals = rng.pick([oc for oc in OPTION_CHOICES if not oc[0].startswith('time.') and oc[0] not in ('hydraulic.demand_model',)])
+            op['path'], op['value'] = path, rng.pick(vals)
+        ops.append(op)
+    if not any(o_['op'] == 'restart' for o_ in ops):
+        ops.append({'op': 'restart', 'how': 'inp', 'units': rng.pick(['GPM', 'LPS', 'CMH', 'AFD']), 'version': 2.2})
+    return ops
+
+
 class StoreProp(Prop):
     engine = 'E2'
+    p_file = 0.0
     components = COMPONENTS
     chunk = 32
     shrink_budget = 400
@@ -29,6 +142,9 @@ class StoreProp(Prop):
 
     def make(self, rng, tier):
         prof = dict(self.profile)
+        if self.p_file and rng.chance(self.p_file):
+            # a history that starts from a model read from one of the INP files shipped with the package
+            return {'v': 1, 'engine': 'E2', 'file': rng.wpick(FILES), 'ops': gen_file_history(rng)}
         ops = storegen.gen_history(rng, prof)
         return {'v': 1, 'engine': 'E2', 'ops': ops}
 
@@ -73,8 +189,57 @@ class StoreProp(Prop):
     def after_op(self, wn, m, op, c):
         return store.views_check(wn, m, c)
 
+    def examine_file(self, scn):
+        """history on a model read from a shipped INP file: no mirror; the restart oracles compare the model with its reloaded self"""
+        import os
+        import warnings
+        import hashlib
+        import json
+        import wntr
+        from .. import build
+        c = {}
+        viol = []
+        executed = []
+        with runsim.Scratch() as scratch, warnings.catch_warnings(record=True):
+            warnings.simplefilter('always', append=True)
+            wn = wntr.network.WaterNetworkModel(os.path.join(build.REPO, 'examples', 'networks', scn['file'] + '.inp'))
+            bump(c, 'file_histories.' + scn['file'])
+            for i, op in enumerate(scn['ops']):
+                vv = []
+                if op['op'] == 'restart':
+                    executed.append('restart.' + op['how'])
+                    bump(c, 'fired.restart.' + op['how'])
+                    m = FileMirror(wn)
+                    try:
+                        wn2 = store.persist(wn, op['how'], scratch, op.get('units', 'LPS'), op.get('version', 2.2))
+                    except Exception as e:  # noqa
+                        site = runsim.innermost_repo_frame(e.__traceback__)
+                        vv.append(V(self.id.lower() + '.restart_raises', '%s:%s@%s:file' % (op['how'], type(e).__name__, site), traceback.format_exc()[-900:]))
+                        wn2 = None
+                    if wn2 is not None:
+                        vv += self.at_restart(wn, wn2, op, m, c, scratch)
+                        wn = wn2
+                else:
+                    executed.append('fedit.' + op['kind'])
+                    bump(c, 'ops.fedit.' + op['kind'])
+                    try:
+                        file_edit(wn, op)
+                    except Exception as e:  # noqa
+                        vv.append(V(self.id.lower() + '.valid_op_raises', 'fedit.%s:%s' % (op['kind'], type(e).__name__), '%r: %s' % (op, traceback.format_exc()[-700:])))
+                for x in vv:
+                    x['at'] = i
+                viol += vv
+                if viol:
+                    break
+        dig = hashlib.sha256(json.dumps([scn['file']] + executed).encode()).hexdigest()[:20]
+        grams = sorted(set('>'.join(executed[j:j + 3]) for j in range(max(0, len(executed) - 2))))
+        return verdict('violation' if viol else 'ok', viol, c, dig, nontrivial=True, runs=1, ngrams=grams,
+                       sample={'file': scn['file'], 'ops_executed': len(executed), 'first_ops': executed[:12]})
+
     def examine(self, scn, tier='quick'):
         import wntr
+        if scn.get('file'):
+            return self.examine_file(scn)
         c = {}
         viol = []
         m = store.Mirror()
